@@ -27,7 +27,8 @@ def _get(obj, path):
     return obj
 
 
-def candidates(plan, deletable_dict_keys=('procs', 'files'), text_keys=('text', 'stdout', 'stderr', 'T', 'value')):
+def candidates(plan, deletable_dict_keys=('procs', 'files'), text_keys=('stdout', 'stderr', 'T', 'value')):
+    # ('text' = the syntax of an instruction: never cut - half an instruction is another test case, not a smaller one)
     """Yield simpler variants of plan, most aggressive first."""
     paths = list(_paths(plan))
     # 1. delete list elements (longest lists first, from the end)
